@@ -162,8 +162,13 @@ pub mod implementations {
             .context("Expected an operation [+=,-=,*=,/=,%=]")?;
 
         if let Some(name) = args.get(1) {
+            // same lexical order as `load`; the capture map also serves a closure whose
+            // defining activation has already returned.
             let bundle = ctx
-                .load_variable(name)
+                .load_local(name)
+                .ok()
+                .or_else(|| ctx.load_callback_variable(name).ok())
+                .or_else(|| ctx.load_variable(name))
                 .with_context(|| format!("{name} has not been mapped"))?;
             let value: &mut Primitive = ctx
                 .get_last_op_item_mut()
@@ -530,9 +535,13 @@ pub mod implementations {
         let callback_state = if len != 1 {
             let mut arguments = HashMap::with_capacity(len - 1); // maybe len
             for var_name in &args[1..] {
-                let var = if let Some(var) = ctx.load_variable(var_name) {
+                // lexical order: the frames of this function, then what it captured itself, and
+                // only then the rest of the call stack (enclosing activations, the module).
+                let var = if let Ok(var) = ctx.load_local(var_name) {
                     var
                 } else if let Ok(var) = ctx.load_callback_variable(var_name) {
+                    var
+                } else if let Some(var) = ctx.load_variable(var_name) {
                     var
                 } else {
                     bail!("{var_name} is not in scope")
@@ -1207,9 +1216,13 @@ pub mod implementations {
             bail!("load requires a name")
         };
 
-        let var = if let Some(var) = ctx.load_variable(name) {
+        // lexical order: the frames of this function, then the variables it captured, and only
+        // then the rest of the call stack — a caller's same-named local must not shadow a capture.
+        let var = if let Ok(var) = ctx.load_local(name) {
             var
         } else if let Ok(var) = ctx.load_callback_variable(name) {
+            var
+        } else if let Some(var) = ctx.load_variable(name) {
             var
         } else {
             bail!("load before store (`{name}` not in scope)")
